@@ -8,7 +8,7 @@
                     _binary_op_wrapper             -> `binop`
                     _da_prop_wrapper/_da_method_wrapper -> `liftMethod`
                     __getitem__ (int)              -> `getItem`
-                    register_pytree_node           -> `treeFlatten`, `treeUnflatten`
+                    register_pytree_node, _unflatten -> `treeFlatten`, `treeUnflatten` (before d088c11: `treeUnflattenOld`)
     _wrappers.py    _num_blocks_in_args            -> `numBlocksInArgs`
                     _block_args_kwargs             -> `pick`, `blockArgsKwargs`
                     map_func_over_blocks           -> `mapFuncOverBlocks`
@@ -16,6 +16,9 @@
                     add_full_reduction             -> `addFullReduction`
                     map_func_over_tuple_of_tuples  -> `mapTupleOfTuples`
     util.py         is_nested, shape_to_size       -> `STree.isNested`, `shapeToSize`
+    _blockarray.py  __setitem__                    -> `pyIndex`, `setItem` (before d088c11: `setItemOld`)
+    scico/random.py _add_seed.fun_alt              -> `keyOf`, `seedOf`, `addSeedCore`, `addSeed`
+                    _wrap                          -> `randomWrapped` (+ `bindArgs`: signature binding)
 
   Everything is a higher-order function over an arbitrary per-block function `f`
   (any Python callable: it may fail, `Res`) and an arbitrary universe `α` of
@@ -137,9 +140,16 @@ def getItem (self : List α) (k : Int) : Res α :=
     | some a => .ok a
     | none => .error .index
 
-/-- pytree registration: `lambda xs: (xs, None)` and `lambda _, xs: BlockArray(xs)` -/
+/-- pytree registration: `lambda xs: (xs, None)` and `_unflatten` (d088c11): the constructor
+    (conversion, dtype check) only when every leaf is an array; otherwise the leaves are stored as
+    they are — jax transformations rebuild trees with `object()`, `None`, `ShapeDtypeStruct` leaves -/
 def treeFlatten (self : List α) : List α × Unit := (self, ())
 def treeUnflatten [DecidableEq δ] (E : Env α δ) (_aux : Unit) (children : List α) : Res (List α) :=
+  if children.all E.isArr then mkBlock E children else .ok children
+
+/-- the registration before d088c11 (`lambda _, xs: BlockArray(xs)`): every leaf went through
+    `jnp.array` (finding `blockarray-pytree-placeholder-leaves`) -/
+def treeUnflattenOld [DecidableEq δ] (E : Env α δ) (_aux : Unit) (children : List α) : Res (List α) :=
   mkBlock E children
 
 /-! ### `_wrappers.py` -/
@@ -333,5 +343,121 @@ def optCombine (op : α → α → α) : List (Option α) → Option α
     | some b => some (op a b)
 
 end numeric
+
+
+/-! ### round 2: `__setitem__`, `scico.random` -/
+
+section more
+variable {α β δ : Type}
+
+/-! ### `__setitem__` -/
+
+/-- list index of a Python integer key -/
+def pyIndex (n : Nat) (k : Int) : Option Nat :=
+  let j := if k < 0 then k + (n : Int) else k
+  if j < 0 ∨ (n : Int) ≤ j then none else some j.toNat
+
+/-- `x[k] = v` for an integer key (d088c11): `arrays = list(self.arrays); arrays[key] = value;
+    self.arrays = BlockArray(arrays).arrays` — the same conversion and dtype check as the constructor -/
+def setItem [DecidableEq δ] (E : Env α δ) (self : List α) (k : Int) (v : α) : Res (List α) :=
+  match pyIndex self.length k with
+  | none => .error .index
+  | some j => mkBlock E (self.set j v)
+
+/-- the assignment before d088c11 (`self.arrays[key] = value`): the value was stored as it is
+    (finding `blockarray-setitem-unchecked`) -/
+def setItemOld (self : List α) (k : Int) (v : α) : Res (List α) :=
+  match pyIndex self.length k with
+  | none => .error .index
+  | some j => .ok (self.set j v)
+
+end more
+
+/-! ### `scico.random`: `_add_seed ∘ map_func_over_tuple_of_tuples` -/
+
+/-- non-shape values of a wrapped `jax.random` call -/
+inductive ROth (κ σ β : Type) where
+  | none : ROth κ σ β                 -- Python `None`
+  | key : κ → ROth κ σ β              -- a PRNG key
+  | seed : σ → ROth κ σ β             -- an integer seed
+  | oth : β → ROth κ σ β              -- anything else (dtype, …)
+deriving Repr
+
+/-- a positional / keyword value of a wrapped `jax.random` function -/
+abbrev RVal (κ σ β : Type) := CVal (ROth κ σ β)
+
+def RVal.isNone {κ σ β} : RVal κ σ β → Bool
+  | .oth .none => true
+  | _ => false
+
+/-- the jax primitives of `_add_seed` -/
+structure RngPrims (κ σ β : Type) where
+  /-- the literal `0` of `seed = 0` -/
+  seed0 : σ
+  /-- `jax.random.PRNGKey(seed)` (raises for a non-integer) -/
+  prngKey : RVal κ σ β → Res κ
+  /-- `jax.random.split(key, 2)[0]` (raises when `key` is not a key) -/
+  split0 : RVal κ σ β → Res κ
+
+/-- where key and seed are read from: position `numParams-1` / `numParams` when that many
+    positional arguments are given (then the keyword is NOT consulted), else the keyword -/
+def keyOf {κ σ β : Type} (numParams : Nat) (args : List (RVal κ σ β)) (kwKey : RVal κ σ β) : RVal κ σ β :=
+  if numParams ≤ args.length then (args[numParams - 1]?).getD (.oth .none) else kwKey
+def seedOf {κ σ β : Type} (numParams : Nat) (args : List (RVal κ σ β)) (kwSeed : RVal κ σ β) : RVal κ σ β :=
+  if numParams < args.length then (args[numParams]?).getD (.oth .none) else kwSeed
+
+/-- body of `fun_alt` once `key` and `seed` are located; `f key pos kwargs` is `fun(key, *pos, **kwargs)` -/
+def addSeedCore {κ σ β ρ : Type} (P : RngPrims κ σ β)
+    (f : RVal κ σ β → List (RVal κ σ β) → List (String × RVal κ σ β) → Res ρ)
+    (key seed : RVal κ σ β) (pos : List (RVal κ σ β))
+    (kwargs : List (String × RVal κ σ β)) : Res (ρ × κ) :=
+  if !key.isNone && !seed.isNone then .error .value
+  else
+    let keyE : Res (RVal κ σ β) :=
+      if key.isNone then
+        (P.prngKey (if seed.isNone then .oth (.seed P.seed0) else seed)).map (fun k => .oth (.key k))
+      else .ok key
+    match keyE with
+    | .error e => .error e
+    | .ok k =>
+      match f k pos kwargs with
+      | .error e => .error e
+      | .ok r =>
+        match P.split0 k with
+        | .error e => .error e
+        | .ok k' => .ok (r, k')
+
+/-- `fun_alt(*args, key=None, seed=None, **kwargs)` of `_add_seed(fun)`, `numParams` parameters -/
+def addSeed {κ σ β ρ : Type} (P : RngPrims κ σ β) (numParams : Nat)
+    (f : RVal κ σ β → List (RVal κ σ β) → List (String × RVal κ σ β) → Res ρ)
+    (args : List (RVal κ σ β)) (kwKey kwSeed : RVal κ σ β)
+    (kwargs : List (String × RVal κ σ β)) : Res (ρ × κ) :=
+  addSeedCore P f (keyOf numParams args kwKey) (seedOf numParams args kwSeed)
+    (args.take (numParams - 1)) kwargs
+
+/-- `inspect.signature(fun).bind(*pos, **kwargs)` for a function with plain parameters `params`
+    (no `*args`/`**kwargs`): too many positionals, an unknown keyword or a keyword that is already
+    bound positionally is a `TypeError` -/
+def bindArgs {γ : Type} (params : List String) (pos : List γ) (kwargs : List (String × γ)) :
+    Res (List (String × γ)) :=
+  if params.length < pos.length then .error .type
+  else
+    let named := List.zip params pos
+    if kwargs.any (fun kv => hasKey kv.1 named || !(params.contains kv.1)) then .error .type
+    else .ok (named ++ kwargs)
+
+/-- `scico.random.<name>` = `_add_seed(map_func_over_tuple_of_tuples(jax.random.<name>))`;
+    `g` is `jax.random.<name>` called with bound keyword arguments -/
+def randomWrapped {α δ κ σ β : Type} [DecidableEq δ] (E : Env α δ) (P : RngPrims κ σ β)
+    (params : List String) (g : List (String × RVal κ σ β) → Res α)
+    (args : List (RVal κ σ β)) (kwKey kwSeed : RVal κ σ β)
+    (kwargs : List (String × RVal κ σ β)) : Res (PyVal α × κ) :=
+  addSeed P params.length
+    (fun k pos kw =>
+      match bindArgs params (k :: pos) kw with
+      | .error e => .error e
+      | .ok bound => mapTupleOfTuples E g "shape" bound)
+    args kwKey kwSeed kwargs
+
 
 end Scico.Block
